@@ -72,9 +72,16 @@ CALLS = {
     "use-abs-nogate": ("auto", "from vpulses usepulses *\nregister q[2]\nnosuchgate q[0]\n"),
     # header-only parse of a text with a body (does not go through parse_jaqal_string)
     "header": ("header", "let n 2\nregister q[n]\nmap a q\ng a[0]\n}\n"),
+    # the full parse of the very same text (a syntax error on its last line)
+    "header-full": ("parse", "let n 2\nregister q[n]\nmap a q\ng a[0]\n}\n"),
     # emulation (gates injected) and emulation through usepulses
     "emulate": ("emulate", HDR + "loop 2 { prepare_all; X q[0]; H q[1]; measure_all }\nsubcircuit { CX q[0] q[1] }\n"),
     "emulate-bad": ("emulate", HDR + "prepare_all\nX q[0]\n"),
+    # one gate table object shared by all calls of the process (as a user who builds it once would): the same alias name
+    # and index over different slices of the register
+    "emu-alias-lo": ("emushared", "register q[3]\nmap a q[0:2]\nprepare_all\nX a[0]\nmeasure_all\n"),
+    "emu-alias-hi": ("emushared", "register q[3]\nmap a q[1:3]\nprepare_all\nX a[0]\nmeasure_all\n"),
+    "emu-alias-bad": ("emushared", "register q[3]\nmap a q[2:3]\nprepare_all\nX a[0]\nX a[5]\nmeasure_all\n"),
     "run-string": ("runstr", "from vpulses usepulses *\n" + HDR + "prepare_all\na q[1]\nmeasure_all\n"),
     # the S-expression entry point (never applies the sly patch itself)
     "sexpr": ("sexpr", HDR + "macro m a { g a }\n< m q[0] | m q[1] >\n"),
@@ -86,10 +93,10 @@ ALPHABET = (
     "ok", "syn-mid", "syn-eof", "illegal", "semantic", "index-let", "import-first", "hdr-after-body",
     "use-rel", "use-abs", "use-rel-missing", "use-abs-missing", "use-dot",
     "use-abs-x", "inj-abs", "inj-rel", "inj-abs-bad",
-    "header", "emulate", "sexpr",
+    "header", "header-full", "emulate", "emu-alias-lo", "emu-alias-hi", "sexpr",
 )
 # calls added in the thorough tier
-EXTRA = ("import-later", "redefine", "zero-reg", "use-abs-nogate", "use-rel-x", "emulate-bad", "run-string", "sexpr-bad")
+EXTRA = ("emu-alias-bad", "import-later", "redefine", "zero-reg", "use-abs-nogate", "use-rel-x", "emulate-bad", "run-string", "sexpr-bad")
 
 FUEL = 400000
 
@@ -199,6 +206,14 @@ def perform(ep, text):
 
         c = parse_jaqal_string(text, inject_pulses=_native(), autoload_pulses=False)
         return show_result(run_jaqal_circuit(c))
+    if ep == "emushared":
+        from jaqalpaq.parser import parse_jaqal_string
+        from jaqalpaq.emulator import run_jaqal_circuit
+
+        if "native" not in _state:
+            _state["native"] = _native()
+        c = parse_jaqal_string(text, inject_pulses=_state["native"], autoload_pulses=False)
+        return show_result(run_jaqal_circuit(c))
     if ep == "runstr":
         from jaqalpaq.emulator import run_jaqal_string
 
@@ -224,7 +239,7 @@ def one_call(name):
     from mc.fuel import fuel, OutOfFuel
 
     ep, text = CALLS[name]
-    if ep in ("emulate", "runstr"):
+    if ep in ("emulate", "emushared", "runstr"):
         import numpy  # a dependency of the emulator itself
 
         numpy.random.seed(0)
